@@ -66,3 +66,16 @@ theorem accepted_tables_bounded (bs : Bytes) (h : Hdr) (hp : parse bs = .ok h) :
   omega
 
 end Wv.Hdr
+
+namespace Wv.Hdr
+open Wv
+
+/-- a header written with its version's own size (what the builder does) occupies exactly that many bytes -/
+theorem write_length (h : Hdr) (hw : WF h) (hs : h.headerSize = minSize h.version) : (write h).length = h.headerSize := by
+  unfold write
+  rw [List.length_append, base_enc_length, Rec.enc_length, zip_fst hw.extLen, hs]
+  have hv := hw.ver
+  have : h.version = 0 ∨ h.version = 1 ∨ h.version = 2 ∨ h.version = 3 := by omega
+  rcases this with h0 | h0 | h0 | h0 <;> rw [h0] <;> decide
+
+end Wv.Hdr
